@@ -78,12 +78,23 @@ def spec_hash(spec):
 
 
 def load_findings(pid):
-    path = os.path.join(VERIF, 'known_findings.json')
-    if not os.path.exists(path):
-        return []
-    with open(path) as f:
-        data = json.load(f)
-    return [x for x in data.get('findings', []) if x.get('property') == pid]
+    """known_findings.json is the committed list; findings.d/*.json are per-property fragments merged into it."""
+    import glob
+    out = []
+    paths = [os.path.join(VERIF, 'known_findings.json')] + sorted(glob.glob(os.path.join(VERIF, 'findings.d', '*.json')))
+    if os.environ.get('VERIF_OUT'):
+        paths += sorted(glob.glob(os.path.join(os.environ['VERIF_OUT'], 'findings.d', '*.json')))
+    seen = set()
+    for path in paths:
+        if not os.path.exists(path):
+            continue
+        with open(path) as f:
+            data = json.load(f)
+        for x in data.get('findings', []):
+            if x.get('property') == pid and x.get('id') not in seen:
+                seen.add(x.get('id'))
+                out.append(x)
+    return out
 
 
 class _Acc:
